@@ -677,10 +677,10 @@ def backward_slice(body, seeds, skip_call=None):
         for i, t in mut_calls:
             if i in calls_in:
                 continue
-            roots = set()
+            roots = set()       # locals this call may write through a `&mut` argument
             for a in t["a"]:
                 pl = op_place(a)
-                if pl:
+                if pl and (body.local_ty(pl[0]) or "").lstrip("(").startswith(("&mut", "std::pin::Pin<&mut", "*mut")):
                     roots.add(origin(body, pl)[0])
                     roots.add(pl[0])
             if l in roots:
